@@ -77,6 +77,78 @@ let mkreq outs inputs fee minc maxu k =
   { rq_outputs = recips_of outs; rq_inputs = inputs_of inputs; rq_fee = fee_of_tok fee; rq_min_conf = z_of minc;
     rq_max_utxos = optz maxu; rq_nchange = z_of k }
 
+(* ---- histories (Model/TxCreateHistory.v) *)
+let fsplit s = String.split_on_char '~' s
+
+let xin_of s =
+  match String.split_on_char ':' s with
+  | [i; shape; k; claim] ->
+      let numeric = k <> "N" && k <> "X" in
+      { x_id = z_of i;
+        x_key = (if k = "N" then None else if k = "X" then Some (z_of "9999") else Some (z_of k));
+        x_claim = (if claim = "N" then None else Some (z_of claim));
+        x_addr = (shape = "a" && numeric); x_obj = (shape = "o") }
+  | _ -> failwith "xin"
+
+let xins_of t = if t = "N" then None else Some (List.map xin_of (split ',' t))
+
+let keys_of t =
+  if t = "-" then [] else List.map z_of (split ',' (String.sub t 1 (String.length t - 1)))
+
+let acct_of t = if t = "N" then BZ.zero else z_of t
+
+let litem_of s =
+  match String.split_on_char ':' s with
+  | [i; v; c; k] -> { li_id = z_of i; li_value = z_of v; li_conf = z_of c; li_key = z_of k }
+  | _ -> failwith "litem"
+
+let hreq_of outs inputs fee minc maxu k keys acct lt rbf =
+  { hq_outputs = recips_of outs; hq_inputs = xins_of inputs; hq_fee = fee_of_tok fee; hq_min_conf = z_of minc;
+    hq_max_utxos = optz maxu; hq_nchange = z_of k; hq_keys = keys_of keys; hq_acct = acct_of acct;
+    hq_locktime = z_of lt; hq_rbf = b01 rbf }
+
+let btx_of ins outs fee vsize =
+  { b_inputs = view_of ins; b_outputs = List.map bout_of (split ';' outs); b_fee = z_of fee; b_vsize = z_of vsize }
+
+let hop_of s =
+  match fsplit s with
+  | ["c"; outs; inputs; fee; minc; maxu; k; keys; acct; lt; rbf; o1] ->
+      HCreate (hreq_of outs inputs fee minc maxu k keys acct lt rbf, oracle_of o1)
+  | ["s"; outs; inputs; fee; minc; maxu; k; keys; acct; lt; rbf; o1; o2; bc; sg] ->
+      HSend (hreq_of outs inputs fee minc maxu k keys acct lt rbf, oracle_of o1, oracle_of o2, b01 bc, b01 sg)
+  | ["w"; single; targets; fee; fpk; minc; maxu; keys; acct; lt; rbf; o1; o2; bc; sg] ->
+      HSweep ({ hw_sweep = { sw_single = b01 single; sw_targets = recips_of targets; sw_fee = fee_of_tok fee;
+                             sw_fee_per_kb = optz fpk; sw_min_conf = z_of minc; sw_max_utxos = z_of maxu };
+                hw_keys = keys_of keys; hw_acct = acct_of acct; hw_locktime = z_of lt; hw_rbf = b01 rbf },
+              oracle_of o1, oracle_of o2, b01 bc, b01 sg)
+  | ["u"; acct; rescan; listing] -> HUpdate (acct_of acct, List.map litem_of (split ';' listing), b01 rescan)
+  | ["a"; acct; item] -> HUtxoAdd (acct_of acct, litem_of item)
+  | ["r"] -> HReopen
+  | ["b"; farg; earg; bc; sg; ins; outs; fee; vsize] ->
+      HBump (btx_of ins outs fee vsize, z_of farg, z_of earg, b01 bc, b01 sg)
+  | _ -> failwith ("hop " ^ s)
+
+let snap_s st =
+  let l = List.sort (fun (a, _) (b, _) -> BZ.compare a b) (spendable st) in
+  if l = [] then "-" else String.concat "," (List.map (fun (i, c) -> str_z i ^ ":" ^ str_z c) l)
+
+let rec zip a b = match a, b with x :: r, y :: s -> (x, y) :: zip r s | _ -> []
+
+let hout_s = function
+  | OTx (x, pushed) ->
+      let t = x.x_tx in
+      let ins = zip t.t_inputs x.x_seqs in
+      Printf.sprintf "OK fee=%s change=%s vsize=%s in=%s out=%s lt=%s pushed=%s" (str_z t.t_fee) (str_z t.t_change)
+        (str_z t.t_vsize)
+        (if ins = [] then "-" else String.concat "," (List.map (fun (u, s) -> str_z u.u_id ^ "/" ^ str_z s) ins))
+        (outs_s t.t_outputs) (str_z x.x_locktime) (bool_s pushed)
+  | OErr e -> "ERR " ^ err_s e
+  | OCount n -> "U " ^ str_z n
+  | ODone -> "R"
+  | OBump (b, pushed) ->
+      Printf.sprintf "OK fee=%s in=%s out=%s pushed=%s" (str_z b.b_fee) (ids_s b.b_inputs) (outs_s b.b_outputs) (bool_s pushed)
+  | ONoLast -> "NOLAST"
+
 let dispatch = function
   | ["select"; view; amount; variance; minc; dust; maxu] ->
       (match lib_select_inputs (view_of view) (z_of amount) (z_of variance) (z_of minc) (z_of dust) (optz maxu) with
@@ -110,6 +182,10 @@ let dispatch = function
   | ["netlimits"; net] ->
       let n = net_by_index (z_of net) in
       str_z n.nw_dust_amount ^ " " ^ str_z n.nw_fee_min ^ " " ^ str_z n.nw_fee_max
+  | "hist" :: net :: wk :: bcount :: mult :: mult2 :: ops ->
+      let env = { he_bcount = z_of bcount; he_mult = q_of mult; he_mult2 = q_of mult2 } in
+      let recs = h_run env (net_by_index (z_of net)) (wkind_of wk) h_empty (List.map hop_of ops) in
+      String.concat " @ " (List.map (fun r -> hout_s r.hr_out ^ " U=" ^ snap_s r.hr_post) recs)
   | _ -> "BADREQ"
 
 let () = main dispatch
